@@ -257,7 +257,7 @@ def task(kinds, remove_idx=None):
 def main():
     chk = Check("C16", __doc__)
     nmax = 3 if chk.tier == "quick" else 4
-    seqs = []
+    seqs = [""]        # the empty library too
     for n in range(1, nmax + 1):
         for kinds in itertools.product("SPEIXF", repeat=n):
             seqs.append("".join(kinds))
